@@ -1017,9 +1017,58 @@ func cxHandleContextStream(r *Rand, ops []string) []string {
 	return ops
 }
 
+// genLongChainCase: a request chain LONGER than the 63-handler limit of C05 (registration counts group + route
+// middleware only, so enough global middleware gets there). Nobody aborts and nobody asks IsAborted() - beyond the
+// limit the cursor passes abortIndex by itself, which C05 excludes - but C04 speaks about every request: all
+// handlers run in order, each once, and return in reverse order.
+func genLongChainCase(r *Rand) Case {
+	n := r.Range(64, 100)
+	if r.Chance(1, 3) {
+		n = r.Range(64, 67)
+	}
+	PR := r.Range(0, 40)
+	P := r.Intn(PR + 1)
+	R := PR - P
+	G := n - 1 - PR
+	hs := make([]string, n)
+	for i := range hs {
+		var out []string
+		if r.Chance(1, 3) {
+			out = append(out, "e"+strconv.Itoa(r.Intn(10)))
+		}
+		if !r.Chance(1, 8) {
+			out = append(out, "n")
+			if r.Chance(1, 3) {
+				out = append(out, "e"+strconv.Itoa(r.Intn(10)))
+			}
+		}
+		hs[i] = chainActsStr(out)
+	}
+	ops := []string{"new"}
+	for i := 0; i < G; i++ {
+		ops = append(ops, "g "+hs[i])
+	}
+	for i := 0; i < P; i++ {
+		ops = append(ops, "p "+hs[G+i])
+	}
+	for i := 0; i < R; i++ {
+		ops = append(ops, "r "+hs[G+P+i])
+	}
+	ops = append(ops, "m "+hs[n-1])
+	v := r.Intn(32)
+	ops = append(ops, fmt.Sprintf("serve %d", v))
+	if r.Chance(1, 3) {
+		ops = append(ops, fmt.Sprintf("serve %d", v))
+	}
+	return Case{Ops: ops, Tag: "len64-100-noabort"}
+}
+
 func (chainEngine) Gen(r *Rand, tier string) Case {
 	if r.Chance(1, 8) {
 		return genLimCase(r)
+	}
+	if r.Chance(1, 16) {
+		return genLongChainCase(r)
 	}
 	n, tag := genChainLen(r)
 	// split n-1 middleware into global / group / route
